@@ -102,7 +102,7 @@ def main():
         "setup_cmd": "./setup.sh",
         "hooks": {
             "guard": "none (no source hooks: instrumentation and scaled constants are applied with `go build -overlay`, generated from /repo's working tree at check time; build tag `vsched` only selects harness-side files under /verif)",
-            "enable": "./bin/vcheck <ID> generates the overlay under /verif/build/<id>/<variant>/overlay.json and builds with `go build -overlay`",
+            "enable": "./bin/vcheck <ID> generates the overlay under /verif/_build/<id>/<variant>/overlay.json and builds with `go build -overlay`",
             "baseline_off_cmd": BASELINE_OFF,
             "source_commits": [],
             "add_only": True,
